@@ -141,7 +141,7 @@ def availableLen (p : Pipe) : Option Nat :=
 /-- The head-popping loop of `discardBefore`. -/
 def dropBufs : List Buf → Int → List Buf
   | [], _ => []
-  | pb :: rest, off => if pb.stop < off then dropBufs rest off else pb :: rest
+  | pb :: rest, off => if pb.stop ≤ off then dropBufs rest off else pb :: rest
 
 /-- `discardBefore(off)`. -/
 def discardBefore (p : Pipe) (off : Int) : Pipe :=
